@@ -76,6 +76,10 @@ FRESH_CONTAINER_CALLS = {
     "list", "tuple", "sorted", "dict", "set", "oset", "frozenset", "reversed",
     "enumerate", "zip", "iter", "filter", "map", "tags_to_oset",
 }
+ARRAY_INPLACE_METHODS = {"fill", "sort", "resize", "setflags", "itemset", "put", "setfield", "partition"}
+ARRAY_VIEW_METHODS = {"reshape", "ravel", "view", "transpose", "squeeze", "swapaxes", "diagonal"}
+ARRAY_INPLACE_FUNCS = {"copyto", "put", "put_along_axis", "putmask", "place", "fill_diagonal"}
+ARRAY_VIEW_FUNCS = {"reshape", "ravel", "asarray", "asanyarray", "transpose", "squeeze", "atleast_1d", "atleast_2d"}
 PURE_BUILTINS = {
     "len", "int", "float", "str", "bool", "abs", "min", "max", "sum", "range",
     "isinstance", "hasattr", "id", "repr", "hash", "any", "all", "round",
@@ -104,12 +108,13 @@ def none_test(node):
 
 
 class Summary:
-    __slots__ = ("mut", "ret", "holds", "done")
+    __slots__ = ("mut", "ret", "holds", "done", "awrites")
 
     def __init__(self):
         self.mut = {}
         self.ret = frozenset()
         self.holds = {}
+        self.awrites = []
         self.done = False
 
     def key(self):
@@ -128,6 +133,8 @@ def demote(origins):
             out.add(("T", o[1]) + (o[2:] if o[0] == "E" else ()))
         elif o[0] == "M":
             out.add(F)  # iterating a dict yields its keys
+        elif o[0] == "A":
+            out.add(("A", o[1]))
         else:
             out.add(o)
     return frozenset(out)
@@ -140,6 +147,8 @@ def as_container(origins):
             out.add(("E", o[1]) + (o[2:] if o[0] in ("T", "E") else ()))
         elif o[0] in ("C", "M"):
             out.add(F)
+        elif o[0] == "A":
+            out.add(("A", o[1], "c"))  # container of arrays
         else:
             out.add(o)
     return frozenset(out)
@@ -250,10 +259,13 @@ class Effects:
             combos = [{}]
             for prm in forks[:2]:
                 combos = [dict(c, **{prm: v}) for c in combos for v in (True, False)]
-            s.mut, s.ret, s.holds = {}, frozenset(), {}
+            s.mut, s.ret, s.holds, s.awrites = {}, frozenset(), {}, []
             for nullctx in combos:
                 interp = _Interp(self, f, nctx, cls, nullctx)
                 interp.run()
+                for aw in interp.awrites:
+                    if aw not in s.awrites:
+                        s.awrites.append(aw)
                 for prm, ms in interp.mut.items():
                     lst = s.mut.setdefault(prm, [])
                     for m_ in ms:
@@ -282,7 +294,7 @@ class Effects:
             # provisional: valid only for the ancestor's current iteration
             self.min_dep = min(outer_dep, dep)
             res = Summary()
-            res.mut, res.ret, res.holds = s.mut, s.ret, s.holds
+            res.mut, res.ret, res.holds, res.awrites = s.mut, s.ret, s.holds, s.awrites
             self.prov[key] = (self.epoch, res, dep)
             return res
         self.min_dep = outer_dep
@@ -345,6 +357,25 @@ class _Interp:
         self.holds = {}
         self.localdicts = {}
         self.varclass = {}
+        self.awrites = []
+
+    def array_write(self, origins, line, what, chain=()):
+        """An in-place write into a numerical array.  For data owned by a
+        tensor / network (A-origins) this is both an array-immutability event
+        and a mutation of the owner; for a bare parameter it is remembered as
+        an "arr" effect so that callers passing tensor data are found."""
+        for o in origins:
+            if o[0] == "A" and o[2:] == ("c",):
+                continue
+            if o[0] == "A":
+                ev_ = (o[1], line, what, tuple(chain))
+                if ev_ not in self.awrites and len(self.awrites) < 50:
+                    self.awrites.append(ev_)
+                self.record(frozenset([("T", o[1])]), "elem", line, "in-place array write: " + what, chain=chain)
+            elif o[0] == "P":
+                lst = self.mut.setdefault(o[1], [])
+                if not any(x.level == "arr" for x in lst):
+                    lst.append(Mutation("arr", True, line, what, tuple(chain)))
 
     # ------------------------------------------------------------------ run
     def run(self):
@@ -509,6 +540,9 @@ class _Interp:
         if isinstance(t, ast.Name):
             cur = flat(env.get(t.id, frozenset([U])))
             dn = AUG_DUNDER.get(type(st.op))
+            if any(o[0] == "A" for o in cur):
+                # numpy arrays implement every augmented operator in place
+                self.array_write(frozenset(o for o in cur if o[0] == "A"), st.lineno, src_of(st)[:70])
             hit = frozenset(o for o in cur if o[0] in ("P", "T"))
             if dn and hit:
                 cands = self.eff.name_index().get(dn, [])
@@ -529,8 +563,12 @@ class _Interp:
             # rebinding for immutable kinds; keep aliases
             env[t.id] = cur | frozenset([F])
         else:
-            base = self.ev(t.value, env)
-            self.record(flat(base), "obj", st.lineno, f"augmented store {src_of(t)}")
+            base = flat(self.ev(t.value, env))
+            if isinstance(t, ast.Subscript):
+                self.array_write(frozenset(o for o in base if o[0] in ("A", "P")), st.lineno, src_of(st)[:70])
+            elif isinstance(t, ast.Attribute) and t.attr in ARRAY_ATTRS:
+                self.array_write(frozenset(("A", o[1]) for o in base if o[0] in ("P", "T", "E")), st.lineno, src_of(st)[:70])
+            self.record(frozenset(o for o in base if o[0] != "A"), "obj", st.lineno, f"augmented store {src_of(t)}")
         return True
 
     def s_Delete(self, st, env):
@@ -696,7 +734,8 @@ class _Interp:
                 k = const_value(t.slice, None)
                 if isinstance(k, str) and value_node is not None:
                     self.localdicts[t.value.id][k] = value_node
-            self.record(self.store_targets(base, t), "obj", st.lineno, f"store {src_of(t)}")
+            self.record(frozenset(o for o in self.store_targets(base, t) if o[0] != "T" or ("A", o[1]) not in base), "obj", st.lineno, f"store {src_of(t)}")
+            self.array_write(frozenset(o for o in base if o[0] in ("A", "P")), st.lineno, f"store {src_of(t)}"[:70])
             # storing into a holder attribute: self.attr[k] = value
             if isinstance(t.value, ast.Attribute) and t.value.attr not in OWN_STRUCT_ATTRS:
                 hb = flat(self.ev(t.value.value, env))
@@ -902,6 +941,8 @@ class _Interp:
                 out.add(("T", o[1]) + o[2:])
             elif o[0] in ("P", "T"):
                 out.add(("T", o[1]))
+            elif o[0] == "A":
+                out.add(("A", o[1]))
             else:
                 out.add(o)
         return frozenset(out)
@@ -914,7 +955,7 @@ class _Interp:
             k = o[0]
             if k in ("P", "T", "C", "E", "M"):
                 if a in ARRAY_ATTRS:
-                    out.add(("A", o[1]))
+                    out.add(("A", o[1], "c") if a == "arrays" else ("A", o[1]))
                 elif a in ELEM_ATTRS:
                     out.add(("E", o[1], "tensor"))
                 elif a in FRESH_ATTRS:
@@ -1139,7 +1180,7 @@ class _Interp:
                     elif o[0] == "P":
                         out.add(s)
                     elif o[0] == "A":
-                        out.add(("A", s[1]) if s[0] != "A" else s)
+                        out.add((("A", s[1]) + o[2:]) if s[0] != "A" else (s if not o[2:] else ("A", s[1]) + o[2:]))
                     elif s[0] == "A":
                         out.add(s)
                     elif o[0] == "T":
@@ -1183,6 +1224,12 @@ class _Interp:
                 if not src:
                     continue
                 for mu in muts:
+                    if mu.level == "arr":
+                        self.array_write(
+                            frozenset(o for o in src if o[0] in ("A", "P")), line, what,
+                            chain=(f"{c.fq}:{mu.line} {mu.what}",) + tuple(mu.chain)[:4],
+                        )
+                        continue
                     for o in src:
                         if o[0] in ("P", "C", "T", "M") or (o[0] == "E" and mu.level == "elem"):
                             lvl = "elem" if o[0] in ("T", "E") else mu.level
@@ -1257,6 +1304,27 @@ class _Interp:
         for k in node.keywords:
             self.ev(k.value, env)
         return frozenset([U])
+
+    def external_call(self, node, env, fname):
+        """Call into numpy / autoray / scipy ...: no effect on tensors, but
+        in-place array routines and ``out=`` are array writes, and reshaping
+        helpers return views."""
+        vals = [flat(self.ev(a, env)) for a in node.args]
+        first = 0
+        if fname == "do" and node.args and isinstance(node.args[0], ast.Constant) and isinstance(node.args[0].value, str):
+            fname = node.args[0].value
+            first = 1
+        for k in node.keywords:
+            v = flat(self.ev(k.value, env))
+            if k.arg == "out" and any(o[0] in ("A", "P") for o in v):
+                self.array_write(frozenset(o for o in v if o[0] in ("A", "P")), node.lineno, f"{fname}(..., out={src_of(k.value)})"[:70])
+        if fname in ARRAY_INPLACE_FUNCS and len(vals) > first:
+            self.array_write(frozenset(o for o in vals[first] if o[0] in ("A", "P")), node.lineno, f"{fname}({src_of(node.args[first])}, ...)"[:70])
+        if fname in ARRAY_VIEW_FUNCS and len(vals) > first:
+            a = frozenset(o for o in vals[first] if o[0] == "A")
+            if a:
+                return a | frozenset([F])
+        return frozenset([F])
 
     def generic_args_escape(self, node, env):
         for a in node.args:
@@ -1341,6 +1409,8 @@ class _Interp:
                 if not src:
                     continue
                 for mu in muts:
+                    if mu.level == "arr":
+                        continue
                     for o in src:
                         if o[0] in ("P", "C", "T", "M") or (o[0] == "E" and mu.level == "elem"):
                             hits.add((o, "elem" if o[0] in ("T", "E") else mu.level, mu.sure, mu.line, mu.what))
@@ -1362,7 +1432,16 @@ class _Interp:
         if isinstance(fn.value, ast.Call) and isinstance(fn.value.func, ast.Name) and fn.value.func.id == "super":
             recv = env.get(self.f.posparams[0], frozenset([U])) if self.f.posparams else frozenset([U])
             target = None
-            if self.cls is not None and self.f.cls is not None:
+            sargs = fn.value.args
+            if len(sargs) == 2:
+                # super(Class, obj).m(...): bound to obj, lookup after Class
+                recv = self.ev(sargs[1], env)
+                after = self.prog.resolve_expr(self.f.module, sargs[0])
+                if isinstance(after, ClassInfo) and self.cls is not None and self.cls.isa(after):
+                    target = self.cls.find_after(after, mname)
+                elif isinstance(after, ClassInfo):
+                    target = after.find_after(after, mname)
+            elif self.cls is not None and self.f.cls is not None:
                 target = self.cls.find_after(self.f.cls, mname)
             if target is not None:
                 self.eff.resolved_calls += 1
@@ -1395,8 +1474,7 @@ class _Interp:
             hr = self.prog.lookup(self.f.module, head) if head not in env else None
             if head not in env and (hr is None or isinstance(hr, Module)) and head not in ("self", "cls"):
                 if isinstance(hr, Module) or head in self.f.module.imports:
-                    self.generic_args_escape(node, env)
-                    return frozenset([F])
+                    return self.external_call(node, env, mname)
         # known structural accessors on any receiver
         if mname == "copy" and not any(o[0] == "U" for o in recv if False):
             self.generic_args_escape(node, env)
@@ -1421,6 +1499,12 @@ class _Interp:
         if mname == "get" and len(node.args) >= 1 and any(o[0] in ("C", "E", "M") for o in recv):
             self.generic_args_escape(node, env)
             return frozenset(("T", o[1]) if o[0] in ("P", "T", "E", "M") else o for o in recv) | frozenset([F])
+        if any(o[0] == "A" for o in recv):
+            if mname in ARRAY_INPLACE_METHODS:
+                self.array_write(frozenset(o for o in recv if o[0] == "A"), line, what)
+            if mname in ARRAY_VIEW_METHODS and all(o[0] in ("A", "F", "U") for o in recv):
+                self.generic_args_escape(node, env)
+                return frozenset(o for o in recv if o[0] == "A") or frozenset([F])
         if mname in ARRAY_CALLS:
             self.generic_args_escape(node, env)
             return frozenset(("A", o[1]) if o[0] in ("P", "T", "C", "E", "M") else F for o in recv)
